@@ -71,6 +71,8 @@ def session_config(scheme, mode, tier, known, narrow=False, **over):
         c.update(NARROW.get(scheme, {}))
         if tier == "thorough" and scheme in ("marlin", "sonic"):
             c.update(SupSet={2, 3, 4}, HidSet={0, 1, 2}, ClsSet={"const", "full", "lowz"})
+    # linear codes: both values of the public option check_well_formedness (own parameters instead of the default setup)
+    c.update(WfSet={True, False} if scheme in ("ligero_uni", "ligero_ml", "brakedown") and mode in ("C01", "C02", "C03", "C05", "C10", "C11", "C12") else {True})
     c.update(Tree="fixed", Scheme=scheme, Mode=mode, MaxPolys=2, OpKinds={"open", "batch"},
              QsShapes={1, 2, 3, 4}, LcShapes={1, 2, 3, 4}, MaxOps=1, Emit=True,
              Excused=excused_for(scheme, known))
